@@ -1,6 +1,7 @@
 import PyGam.Proofs.Penalty
 import PyGam.Proofs.Kron
 import PyGam.Proofs.SplineShapeRows
+import PyGam.Proofs.SplineConvex
 import Mathlib.Algebra.Order.Ring.Defs
 import Mathlib.Tactic.Linarith
 import Mathlib.Tactic.Positivity
@@ -207,6 +208,93 @@ theorem spline_mono_inside_any_order (ε : β) (hε : 0 ≤ ε) (cfg : BasisCfg 
     splineFn ε cfg c x ≤ splineFn ε cfg c x' := by
   rw [splineFn_eq ε cfg hper, splineFn_eq ε cfg hper]
   exact splineVal_mono_inside _ _ ε hn hε hε0 c hc _ _ h0 (rescale_mono cfg x x' hxx) h1
+
+/-! #### convex / concave (over `ℝ`; any wrap function `HasFract ℝ`, which a non-periodic term never calls) -/
+
+/-- **convex, everywhere**: if the second differences of the coefficients are non-negative (exactly when the
+convex constraint matrix vanishes, `convex_zero_iff`) the spline of order ≥ 1 is a convex function on the
+whole real line — inside the knot range and on both linear continuations (the left one is the tangent at the
+lower edge knot, the right one is at least as steep as every slope inside). `ε ≥ 0` is the perturbation of the
+last knot (`1e-9` in the code). No differentiability at the knots is used: order 1 (piecewise linear) is covered.
+Order 0 is excluded because it is false there (a non-constant step function is not convex). -/
+theorem spline_convex_everywhere_of_coef_convex [HasFract ℝ] (ε : ℝ) (hε : 0 ≤ ε) (cfg : BasisCfg ℝ)
+    (hper : cfg.periodic = false) (hn : cfg.order < cfg.nSplines) (hp : 0 < cfg.order) (c : Nat → ℝ)
+    (hc : ∀ j, j + 2 < cfg.nSplines → c (j+1) - c j ≤ c (j+2) - c (j+1)) :
+    ConvexOn ℝ Set.univ (splineFn ε cfg c) := by
+  have h := convexOn_comp_rescale cfg (splineVal_convexOn_univ cfg.nSplines ε cfg.order hn hp hε c hc)
+  rw [Set.preimage_univ] at h
+  have e : splineFn ε cfg c = fun x => splineVal cfg.nSplines cfg.order ε c (cfg.rescale x) := by
+    funext x; exact splineFn_eq ε cfg hper c x
+  rw [e]; exact h
+
+/-- **convex on the term's domain** `[lo, hi]` (the sorted edge knots): the statement of the property -/
+theorem spline_convex_of_coef_convex [HasFract ℝ] (ε : ℝ) (hε : 0 ≤ ε) (cfg : BasisCfg ℝ)
+    (hper : cfg.periodic = false) (hn : cfg.order < cfg.nSplines) (hp : 0 < cfg.order) (c : Nat → ℝ)
+    (hc : ∀ j, j + 2 < cfg.nSplines → c (j+1) - c j ≤ c (j+2) - c (j+1)) :
+    ConvexOn ℝ (Set.Icc cfg.lo cfg.hi) (splineFn ε cfg c) := by
+  have h := convexOn_comp_rescale cfg (splineVal_convexOn_Icc cfg.nSplines ε cfg.order hn hp hε c hc)
+  have e : splineFn ε cfg c = fun x => splineVal cfg.nSplines cfg.order ε c (cfg.rescale x) := by
+    funext x; exact splineFn_eq ε cfg hper c x
+  rw [e]
+  exact h.subset (fun x hx => rescale_mem_unit cfg x hx) (convex_Icc _ _)
+
+/-- **concave, everywhere**: non-positive second differences (`concave_zero_iff`) give a concave function -/
+theorem spline_concave_everywhere_of_coef_concave [HasFract ℝ] (ε : ℝ) (hε : 0 ≤ ε) (cfg : BasisCfg ℝ)
+    (hper : cfg.periodic = false) (hn : cfg.order < cfg.nSplines) (hp : 0 < cfg.order) (c : Nat → ℝ)
+    (hc : ∀ j, j + 2 < cfg.nSplines → c (j+2) - c (j+1) ≤ c (j+1) - c j) :
+    ConcaveOn ℝ Set.univ (splineFn ε cfg c) := by
+  have h := spline_convex_everywhere_of_coef_convex ε hε cfg hper hn hp (fun j => - c j)
+    (fun j hj => by have := hc j hj; linarith)
+  have e : splineFn ε cfg (fun j => - c j) = - splineFn ε cfg c := by
+    funext z; simp [splineFn, sum_neg_distrib]
+  rw [e] at h
+  exact neg_convexOn_iff.mp h
+
+/-- **concave on the term's domain** -/
+theorem spline_concave_of_coef_concave [HasFract ℝ] (ε : ℝ) (hε : 0 ≤ ε) (cfg : BasisCfg ℝ)
+    (hper : cfg.periodic = false) (hn : cfg.order < cfg.nSplines) (hp : 0 < cfg.order) (c : Nat → ℝ)
+    (hc : ∀ j, j + 2 < cfg.nSplines → c (j+2) - c (j+1) ≤ c (j+1) - c j) :
+    ConcaveOn ℝ (Set.Icc cfg.lo cfg.hi) (splineFn ε cfg c) := by
+  have h := spline_convex_of_coef_convex ε hε cfg hper hn hp (fun j => - c j)
+    (fun j hj => by have := hc j hj; linarith)
+  have e : splineFn ε cfg (fun j => - c j) = - splineFn ε cfg c := by
+    funext z; simp [splineFn, sum_neg_distrib]
+  rw [e] at h
+  exact neg_convexOn_iff.mp h
+
+/-- the link to the constraint matrix: a vanishing convex constraint at the fitted coefficients gives a convex
+fitted function (and likewise concave) -/
+theorem spline_convex_of_constraint_zero [HasFract ℝ] (ε : ℝ) (hε : 0 ≤ ε) (cfg : BasisCfg ℝ)
+    (hper : cfg.periodic = false) (hn : cfg.order < cfg.nSplines) (hp : 0 < cfg.order) (c : Nat → ℝ)
+    (hz : quadForm cfg.nSplines (convPen true cfg.nSplines c) c = 0) :
+    ConvexOn ℝ Set.univ (splineFn ε cfg c) := by
+  apply spline_convex_everywhere_of_coef_convex ε hε cfg hper hn hp c
+  intro j hj
+  have := (convex_zero_iff cfg.nSplines c).mp hz j (by omega)
+  simp only [iterDiffVec, diffVec] at this
+  linarith
+
+theorem spline_concave_of_constraint_zero [HasFract ℝ] (ε : ℝ) (hε : 0 ≤ ε) (cfg : BasisCfg ℝ)
+    (hper : cfg.periodic = false) (hn : cfg.order < cfg.nSplines) (hp : 0 < cfg.order) (c : Nat → ℝ)
+    (hz : quadForm cfg.nSplines (convPen false cfg.nSplines c) c = 0) :
+    ConcaveOn ℝ Set.univ (splineFn ε cfg c) := by
+  apply spline_concave_everywhere_of_coef_concave ε hε cfg hper hn hp c
+  intro j hj
+  have := (concave_zero_iff cfg.nSplines c).mp hz j (by omega)
+  simp only [iterDiffVec, diffVec] at this
+  linarith
+
+/-- non-vacuity: 5 cubic functions on `[0,2]`, `ε = 1e-9`, coefficients `j²` (second differences `2`): the
+hypotheses are met by a genuinely curved instance; mirrored for concave -/
+example [HasFract ℝ] :
+    ConvexOn ℝ Set.univ (splineFn (1e-9 : ℝ) ⟨5, 3, false, 0, 2⟩ (fun j => (j:ℝ)^2)) :=
+  spline_convex_everywhere_of_coef_convex _ (by norm_num) _ rfl (by decide) (by decide) _
+    (fun j _ => by push_cast; nlinarith)
+
+example [HasFract ℝ] :
+    ConcaveOn ℝ Set.univ (splineFn (1e-9 : ℝ) ⟨5, 3, false, 0, 2⟩ (fun j => -(j:ℝ)^2)) :=
+  spline_concave_everywhere_of_coef_concave _ (by norm_num) _ rfl (by decide) (by decide) _
+    (fun j _ => by push_cast; nlinarith)
 
 end function_level
 
